@@ -4,6 +4,10 @@ from ..core import Report
 from . import runlevel
 from .c01 import replay, widen  # same machinery, property id taken from ctx
 
+# case kinds of corpus/ entries (failing inputs of past regressions) that this module replays on every run
+CORPUS_KINDS = ('pipe_run', 'filter_run')
+
+
 
 def construction_cases(ctx, rep):
     """Start points that are infeasible before / after snapping must raise ValueError with zero target calls."""
@@ -78,10 +82,12 @@ def option_toggle_specs(ctx):
     specs = []
     names = gen.boolean_options()
     for j, (name, dflt) in enumerate(names):
-        sp = gen.make_spec(rng, D=2, geom=rng.choice(["box", "unbounded"]), mode=rng.choice(["det", "det", "decl"]), cons=rng.choice(["ball", "halfspace"]),
-                           opt_loc="outside", target="quad")
-        sp["options"] = {"n_search": 32, "max_fun_evals": 30 if sp["mode"] == "det" else 60, name: (not dflt)}
-        specs.append(sp)
+        for ck in ("ball", "halfspace"):
+            sp = gen.make_spec(rng, D=2, geom=rng.choice(["box", "unbounded"]), mode=rng.choice(["det", "det", "decl"]), cons=ck,
+                               opt_loc="outside", target="quad")
+            sp["cons_scale"] = 1.0
+            sp["options"] = {"n_search": 32, "max_fun_evals": 40 if sp["mode"] == "det" else 70, name: (not dflt)}
+            specs.append(sp)
     return specs
 
 
